@@ -1293,6 +1293,23 @@ impl<'h> Exec<'h> {
             self.probes.hit("hold_use_after_store_moved");
         }
         let mut refcur = held.refcur.clone();
+        if !self.oracles.c07 && self.oracles.c08 {
+            // C08 judges the files, not what the cursor returns, but the holder has to be a
+            // reader that actually reads: it walks its programme and then runs off the end, as a
+            // caller who keeps an exhausted cursor around would (seeded change C08-f).
+            let c = held.cursor.as_mut();
+            for call in prog.iter() {
+                let _ = match call {
+                    Cur::First => c.seek_to_first(),
+                    Cur::Last => c.seek_to_last(),
+                    Cur::Seek(k) => c.seek(&k.0),
+                    Cur::Next => c.next(),
+                    Cur::Prev => c.prev(),
+                };
+            }
+            let _ = drain_forward(c);
+            self.probes.hit("c08_held_cursor_walked_to_the_end");
+        }
         // The first call of every programme positions the cursor, so the mirror is exact.
         let ok = if self.oracles.c07 {
             self.run_prog_against("C07", held.cursor.as_mut(), &mut refcur, prog, "held-cursor")
